@@ -67,6 +67,7 @@ type cellResult struct {
 	Viol     []violation
 	Unstable bool
 	Dials    int
+	Dur      time.Duration
 	Retried  int // identical ClientHellos of failed requests collapsed (the stack's own retry)
 }
 
@@ -280,6 +281,15 @@ func runCell(p *pki, o *origin, cl cell, timeout time.Duration) (res cellResult)
 		}
 	}()
 	c := req.C().SetTimeout(timeout)
+	// every client of the cell (original, clones, throw-away clones) is closed at the end: idle TCP connections
+	// and the HTTP/3 round tripper's UDP socket (a thorough run creates > 40 000 clients)
+	all := []*req.Client{c}
+	defer func() {
+		for _, x := range all {
+			x.GetTransport().CloseIdleConnections()
+			x.GetTransport().VerifCloseHTTP3()
+		}
+	}()
 	u, _ := url.Parse(o.url())
 	hadV3 := false
 	violT := func(tag, sig, what string) {
@@ -367,7 +377,8 @@ func runCell(p *pki, o *origin, cl cell, timeout time.Duration) (res cellResult)
 		case err != nil:
 			rec.Outcome = classify(err)
 			rec.Detail = err.Error()
-			if unstableErr(err) {
+			if unstableErr(err) || (rec.Outcome == "EDial" && !slowCell(cl)) {
+				// (a timeout in a cell where every listener the client may dial exists is load-induced)
 				res.Unstable = true
 			}
 		case resp.StatusCode == 400 && resp.Header.Get("X-Proto") == "":
@@ -395,9 +406,17 @@ func runCell(p *pki, o *origin, cl cell, timeout time.Duration) (res cellResult)
 			st := c.GetTransport().VerifAltSvcState(u)
 			if altBefore == "none" && (st == "pending" || st == "ready") {
 				bgStarted = true
-				waitFor(3*time.Second, func() bool { return c.GetTransport().VerifAltSvcState(u) == "ready" })
-				if o.spec.H3 && !*hadV3 {
-					waitFor(3*time.Second, func() bool { return o.quicSince(m) > 0 })
+				// no wall-clock guess where the outcome is certain: with a QUIC listener the entry always becomes
+				// "ready" (AddConn returns once the dial has been started or joined), then the dial itself ends
+				// (hook: the entry's dialing channel is closed); the server logs the ClientHello before that.
+				// Without a listener (dead advertisement) "ready" may never come: short bounded wait, as modelled.
+				limit := 3 * time.Second
+				if o.spec.H3 {
+					limit = 60 * time.Second
+				}
+				waitFor(limit, func() bool { return c.GetTransport().VerifAltSvcState(u) == "ready" })
+				if o.spec.H3 {
+					waitFor(60*time.Second, func() bool { return c.GetTransport().VerifH3DialState(u) != "dialing" })
 				}
 			}
 		}
@@ -477,6 +496,7 @@ func runCell(p *pki, o *origin, cl cell, timeout time.Duration) (res cellResult)
 		case "clone":
 			orig := c
 			c = c.Clone()
+			all = append(all, c)
 			hadV3 = false
 			if x.F != nil && !applyCfg(orig, *x.F) { // the ORIGINAL is changed after cloning: the clone must not notice
 				panic("clone: not a configuration op: " + x.F.K)
@@ -487,6 +507,7 @@ func runCell(p *pki, o *origin, cl cell, timeout time.Duration) (res cellResult)
 			continue
 		case "fork":
 			c2 := c.Clone()
+			all = append(all, c2)
 			if x.F != nil && !applyCfg(c2, *x.F) {
 				panic("fork: not a configuration op: " + x.F.K)
 			}
